@@ -841,6 +841,24 @@ pub fn gen_big(r: &mut SmallRng, kind: &str, extreme: bool) -> Model {
             "bin_ne" => Con::BinNe(vw(r, &m), vw(r, &m)),
             k => panic!("harness: no large-magnitude generator for {k}"),
         };
+        // A third of the linear constraints get a right-hand side derived from the exact (i128) value of
+        // the left-hand side at a random assignment: that value itself when it is admissible (a tight
+        // constraint), otherwise the value it wraps to modulo 2^32 – the constant a 32-bit computation of
+        // the sum would confuse with the true one.
+        let c = match c {
+            Con::LinLe(vs, _) | Con::LinEq(vs, _) | Con::LinNe(vs, _) if r.gen_range(0..3) == 0 => {
+                let a: Vec<i64> = m.vars.iter().map(|d| d.dom[r.gen_range(0..d.dom.len())]).collect();
+                let exact: i128 = vs.iter().map(|v| v.val(&a)).sum::<i128>() + r.gen_range(-1..2) as i128;
+                let wrapped = (exact + (1i128 << 31)).rem_euclid(1i128 << 32) - (1i128 << 31);
+                let rhs = (wrapped as i64).clamp(-LIM, LIM);
+                match kind {
+                    "lin_le" => Con::LinLe(vs, rhs),
+                    "lin_eq" => Con::LinEq(vs, rhs),
+                    _ => Con::LinNe(vs, rhs),
+                }
+            }
+            c => c,
+        };
         let reif = if r.gen_range(0..5) == 0 { gen_reif(r, &m, &c, 1.0) } else { Reif::Plain };
         m.cons.push((c, reif));
         if r.gen_bool(0.3) {
